@@ -369,6 +369,14 @@ func (e *Exec) binop(fr *Frame, st *State, x *ssa.BinOp) Value {
 	xt := x.X.Type()
 	a := e.val(fr, x.X)
 	b := e.val(fr, x.Y)
+	if e.Opt.ExactCompare {
+		// the outcome of a comparison decides the answer of a numeric predicate: its operands are data
+		switch x.Op {
+		case token.EQL, token.NEQ, token.LSS, token.LEQ, token.GTR, token.GEQ:
+			e.exactUse(fr, st, x.X, "compare")
+			e.exactUse(fr, st, x.Y, "compare")
+		}
+	}
 	switch x.Op {
 	case token.EQL, token.NEQ:
 		var eq *Term
@@ -606,7 +614,15 @@ func (e *Exec) exactArith(fr *Frame, st *State, x ssa.Value, op string, a, b ssa
 	if !ok || ii.bits != 64 {
 		return
 	}
-	if !e.exactType(x.Type()) {
+	if e.Opt.ExactCompare && !e.exactType(x.Type()) {
+		// in predicates also int64 chains (parts of numbers taken out of math/big values) are tracked;
+		// plain int loop counters and lengths are not
+		if bt, ok := x.Type().Underlying().(*types.Basic); !ok || bt.Kind() != types.Int64 {
+			if e.exOf(fr, a, nil) == nil && (b == nil || e.exOf(fr, b, nil) == nil) {
+				return
+			}
+		}
+	} else if !e.exactType(x.Type()) {
 		// only chains that start at a Lisp fixnum are tracked
 		has := false
 		for _, o := range []ssa.Value{a, b} {
